@@ -40,7 +40,7 @@ def gen_cases(tier, seed):
     nt = 150 if tier == "quick" else 3000
     nh = 600 if tier == "quick" else 8000
     cases = [{"kind": "tables", "count": 20} for _ in range(nt)]
-    cases += [{"kind": "history", "n_add": 2 + i % 5, "mode": ["depth", "interval", "mixed", "mixed"][i % 4], "reopen": i % 3 == 0} for i in range(nh)]
+    cases += [{"kind": "history", "n_add": 2 + i % 5, "mode": ["depth", "interval", "mixed", "mixed", "batch"][i % 5], "reopen": i % 3 == 0} for i in range(nh)]
     return cases
 
 
@@ -227,6 +227,26 @@ def do_tables(case, rec, rng):
         if tag == "vertical":
             pz = hole.desurvey(np.array([last + 10.0]))[0]
             rec.check("C18.leg", near(pz, (collar[0], collar[1], collar[2] - (last + 10.0)), scale), op="desurvey", cls="Drillhole", attr="vertical-anchor", detail=f"vertical hole at depth {last + 10}: {pz.tolist()}")
+        # the same object with a new collar, then with a new survey table: positions follow the current values
+        if ti % 2 == 0:
+            collar2 = [f32(collar[0] + 250.0), f32(collar[1] - 40.5), f32(collar[2] + 25.0)]
+            hole.collar = collar2
+            got2 = hole.desurvey(np.array(q))
+            scale2 = max(abs(c) for c in collar2) + rows[-1][0] + 200.0
+            for d, g in zip(q, got2):
+                rec.check("C18.collar" if d == 0 else "C18.leg", bool(np.all(np.isfinite(g))) and near(g, ref_position(collar2, rows, d), scale2), op="desurvey-after-collar-change", cls="Drillhole", attr=tag,
+                          detail=f"collar re-assigned to {collar2}: depth {d} gives {g.tolist()}, expected {list(ref_position(collar2, rows, d))}")
+            p0 = hole.desurvey(np.array([0.0]))[0]
+            rec.check("C18.collar", near(p0, collar2, scale2), op="desurvey-after-collar-change", cls="Drillhole", attr=tag, detail=f"desurvey(0)={p0.tolist()} after the collar became {collar2}")
+            rows2, _ = rand_table(rng, ti + 1)
+            hole.surveys = np.array(rows2, dtype=float)
+            q2 = sorted({r[0] for r in rows2} | {0.0, rows2[-1][0] + 12.5, rows2[-1][0] * 0.37})
+            got3 = hole.desurvey(np.array(q2))
+            if np.all(np.isfinite(got3)):
+                for d, g in zip(q2, got3):
+                    rec.check("C18.leg", near(g, ref_position(collar2, rows2, d), scale2 + rows2[-1][0]), op="desurvey-after-survey-change", cls="Drillhole", attr=tag,
+                              detail=f"surveys re-assigned to {rows2}: depth {d} gives {g.tolist()}, expected {list(ref_position(collar2, rows2, d))}")
+            rec.see("reassigned-collar-and-surveys")
         rec.nontrivial = rec.nontrivial or flags["rows"] >= 2
     rec.shape = ["tables", shapes]
     rec.sample = {"kind": "tables", "last_table": rows, "collar": collar}
@@ -266,7 +286,34 @@ def do_history(case, rec, rng):
         rec.see("histories")
         kinds = set()
         for k in range(case["n_add"]):
-            mode = case["mode"] if case["mode"] != "mixed" else rng.choice(["depth", "interval"])
+            mode = case["mode"] if case["mode"] not in ("mixed", "batch") else rng.choice(["depth", "interval"])
+            if case["mode"] == "batch" and k % 2 == 0:
+                # ONE add_data call whose dictionary holds an interval log followed by two depth logs that share their depths
+                # (given in any order): the merge of the second log meets a DEPTH vector that was not re-sorted yet
+                kw = {} if tol is None else {"collocation_distance": tol}
+                n = rng.randint(2, 5)
+                ds = rng.sample(lattice, n)
+                if rng.random() < 0.4:
+                    ds = sorted(ds, reverse=rng.random() < 0.5)
+                starts = rng.sample(lattice[:-4], rng.randint(1, 3))
+                ft = [[s0, f32(s0 + rng.choice([2.5, 5.0]))] for s0 in starts]
+                va = np.array([g_depth(k, x) for x in ds], dtype=float)
+                vb = np.array([g_depth(k + 50, x) for x in ds], dtype=float)
+                vi = np.array([g_int(k, a, b) for a, b in ft], dtype=float)
+                entries = {f"i{k}": {"from-to": np.array(ft, dtype=float), "values": vi.copy()},
+                           f"d{k}a": {"depth": np.array(ds, dtype=float), "values": va.copy()},
+                           f"d{k}b": {"depth": np.array(ds, dtype=float), "values": vb.copy()}}
+                if rng.random() < 0.5:
+                    entries = {kk: entries[kk] for kk in (f"d{k}a", f"i{k}", f"d{k}b")}
+                hole.add_data(entries, **kw)
+                given_int[f"i{k}"] = {tuple(x): v for x, v in zip(ft, vi.tolist())}
+                given_depth[f"d{k}a"] = dict(zip(ds, va.tolist()))
+                given_depth[f"d{k}b"] = dict(zip(ds, vb.tolist()))
+                ops.append(("batch", n))
+                kinds.update({"depth", "interval"})
+                rec.see("batched-additions")
+                judge_hole(rec, hole, collar, rows, given_depth, given_int, tolv, "after-batch")
+                continue
             kinds.add(mode)
             name = f"{mode[0]}{k}"
             kw = {} if tol is None else {"collocation_distance": tol}
